@@ -749,6 +749,17 @@ func (g *dgen) customError(s *spec.Service, e *spec.ErrorDef) {
 			if x.Type != nil && x.Type.Kind == spec.User && x.NameField != "" {
 				e.Type, e.NameField, e.Headers = x.Type, x.NameField, x.Headers
 				g.feat("errors:custom-shared-type")
+				if t.Draw("shared-type-other-mapping", 2) == 0 {
+					// same Go type, same status code, ANOTHER response mapping: only the goa-error header tells the
+					// client which layout it is reading
+					e.Status = x.Status
+					if x.Headers == nil {
+						e.Headers = map[string]string{"code": "X-Err-Code"}
+					} else {
+						e.Headers = nil
+					}
+					g.feat("errors:shared-type-and-status-other-mapping")
+				}
 				return
 			}
 		}
